@@ -29,6 +29,28 @@ type vOp struct {
 // written.
 func vWriteOp(b *Buffer, maxLen int) vOp { return vWriteOpOf(b, maxLen, false) }
 
+// vWriteOp3 draws from three kinds (value-less, 8-byte, variable-size): the widths in between
+// differ only in a size table entry that the two-operation instances cover.
+func vWriteOp3(b *Buffer, maxLen int) vOp {
+	var o vOp
+	o.kind = [3]int{vkOp, vkW8, vkBytes}[vndChoice("kind3", 3)]
+	o.op = OpType(vndU8("op") & 7)
+	vndAssume(o.op <= Skip)
+	o.off = vndU32("off")
+	switch o.kind {
+	case vkOp:
+		b.PutOperation(o.op, o.off)
+	case vkW8:
+		o.val = vndU64("v64")
+		b.PutUint64(o.op, o.off, o.val)
+	case vkBytes:
+		n := vndChoice("len", maxLen+1)
+		o.str = vndBytes("s", n)
+		b.PutBytes(o.op, o.off, o.str)
+	}
+	return o
+}
+
 // vWriteOpOf with few=true restricts the kinds to a value-less and a variable-size operation
 // (enough where the payload bytes are opaque to the code under test).
 func vWriteOpOf(b *Buffer, maxLen int, few bool) vOp {
@@ -96,7 +118,11 @@ func VerifC05RoundTrip() {
 	b := NewBuffer(vndParam("cap"))
 	var ops [4]vOp
 	for i := 0; i < K; i++ {
-		ops[i] = vWriteOp(b, maxLen)
+		if vndParam("kset") == 3 {
+			ops[i] = vWriteOp3(b, maxLen)
+		} else {
+			ops[i] = vWriteOp(b, maxLen)
+		}
 		if i > 0 {
 			d := int32(ops[i].off) - int32(ops[i-1].off)
 			vndCover("delta-next", d == 1)
